@@ -123,8 +123,8 @@ fn hyphenate_impl(hyphenater: &Hyphenator, list: &[ds::Horizontal]) -> Vec<ds::H
                     out.push(elem.clone());
                 }
                 Action::Abort => {
-                    i += 1;
-                    out.push(elem.clone());
+                    // The aborting node is not consumed: if it is a glue node it must get
+                    // the chance to start its own search (e.g. the glue in "3.0 Contents").
                     break None;
                 }
             }
